@@ -80,25 +80,35 @@ class LocalScipyMinimizer(AbstractMinimizer):
     ) -> Result[OptimisationState]:
         """Call minimzer."""
         par_names = list(p0.keys())
+        x0 = list(p0.values())
+
+        def fn(par_values: Array) -> float:
+            return residual_fn(_pack_updates(par_values, par_names))
 
         res: OptimizeResult = minimize(
-            lambda par_values: residual_fn(_pack_updates(par_values, par_names)),
-            x0=list(p0.values()),
+            fn,
+            x0=x0,
             bounds=[bounds.get(name, (1e-6, 1e6)) for name in p0],
             method=self.method,
             tol=self.tol,
         )
         if res.success:
+            best, residual = res.x, res.fun
+            # Not every method only ever moves downhill: the bounded line search
+            # of e.g. Powell never looks at the value of the starting point and
+            # can end in a worse place. Never report something worse than p0.
+            if not residual <= (residual0 := fn(x0)):
+                best, residual = x0, residual0
             return Result(
                 OptimisationState(
                     parameters=dict(
                         zip(
                             p0,
-                            res.x,
+                            best,
                             strict=True,
                         ),
                     ),
-                    residual=res.fun,
+                    residual=residual,
                 )
             )
         LOGGER.warning("Minimisation failed due to %s", res.message)
